@@ -16,7 +16,7 @@ from ..jobs import Job, register
 from ..refsem import RefResult
 from ..spec import NodeBaseExc, NodeErr1, NodeErr2
 from ..vloop import VLoop
-from .common import doc, engine_harness
+from .common import auto_parts, doc, engine_harness
 
 ATTEMPTS = (None, 0, 1, 2, 3)
 EXC_SETS = (None, ("E1",), ("E1", "E2"), ("E2",), ("Exception",))
@@ -216,8 +216,64 @@ def _c12_engine(obs: Obs, ref: RefResult, sym: Any) -> Optional[str]:
 
 SYMS = ["caller input", "durations", "per-attempt outcome kinds of the retrying node and of its sibling", "task-set order"]
 register(Job("C12", "retry_sibling", engine_harness(lambda: C.retry_sibling(2, 1, False), _c12_engine), tier="quick",
-             budget_s=300, doc=doc("retry_sibling", SYMS)))
+             budget_s=300, parts=auto_parts(C.retry_sibling(2, 1, False)), doc=doc("retry_sibling", SYMS)))
 register(Job("C12", "retry_sibling_default", engine_harness(lambda: C.retry_sibling(3, 2, True), _c12_engine),
-             tier="quick", budget_s=300, goals=("default_used",), doc=doc("retry_sibling_default", SYMS)))
+             tier="quick", budget_s=300, goals=("default_used",), parts=auto_parts(C.retry_sibling(3, 2, True)),
+             doc=doc("retry_sibling_default", SYMS)))
 register(Job("C12", "retry_chain", engine_harness(lambda: C.retry_chain(3, True), _c12_engine), tier="quick",
              budget_s=300, goals=("default_used",), doc=doc("retry_chain", SYMS)))
+
+
+# ------------------------------------------------------------------ NodeRetryPolicy pass-through (symbolic float delay)
+def make_policy() -> Any:
+    def mk() -> Any:
+        from crosshair.core import proxy_for_type
+        from crosshair.tracers import NoTracing
+
+        from ml_pipeline_engine.node.retrying import NodeRetryPolicy
+
+        def h(sym: Any) -> Tuple[str, Dict[str, Any]]:
+            if sym.symbolic:
+                with NoTracing():
+                    d = proxy_for_type(float, "delay_f", allow_subtypes=False)
+                sym.vars["delay_f"] = d
+            else:
+                d = float(sym.w.get("delay_f", 0.0))
+                sym.used["delay_f"] = d
+            sym.assume(d == d and 0.0 <= d <= 100.0)  # finite, non-negative
+            has_delay = sym.bool("has_delay")
+            att = ATTEMPTS[sym.choice("attempts_idx", len(ATTEMPTS))]
+            excs = EXC_SETS[sym.choice("exceptions_idx", len(EXC_SETS))]
+            with untraced():
+                ns: Dict[str, Any] = {}
+                if att is not None:
+                    ns["attempts"] = att
+                if excs is not None:
+                    ns["exceptions"] = tuple(EXC_CLASSES[e] for e in excs)
+                cls = type("N", (), dict({"attempts": None, "delay": None, "exceptions": None}, **ns))
+            if has_delay:
+                cls.delay = d
+            pol = NodeRetryPolicy(node=cls)
+            label = None
+            want_delay = d if (has_delay and d != 0) else 0
+            if not (pol.delay == want_delay):
+                label = "policy_delay_differs_from_configured_delay"
+            elif pol.attempts != (att or 1):
+                label = "policy_attempts"
+            elif pol.exceptions != (tuple(EXC_CLASSES[e] for e in excs) if excs else (Exception,)):
+                label = "policy_exceptions"
+            info = {"digest": [label], "goals": ["checked"], "summary": {"attempts": att, "exceptions": excs}}
+            return (label or "ok"), info
+
+        return h
+
+    return mk
+
+
+register(Job("C12", "unit_policy_passthrough", make_policy(), tier="quick", budget_s=200, goals=("checked",),
+             doc={"template": "unit: NodeRetryPolicy(node).delay/attempts/exceptions",
+                  "symbolic": ["delay: symbolic float in [0,100] (fractional seconds)", "attempts in {None,0,1,2,3}", "exceptions (5 settings)"],
+                  "functions": ["ml_pipeline_engine/node/retrying.py::NodeRetryPolicy.delay/attempts/exceptions"],
+                  "bounds": "delay <= 100 s; float modelled by CrossHair/z3",
+                  "assumptions": ["the engine harness uses integer virtual time, so fractional delays are checked here, at the "
+                                  "policy that hands the delay to asyncio.sleep, and the sleep itself with integer delays"]}))
